@@ -208,6 +208,27 @@ pub fn mk_mint(world: &mut World, decimals: u8, tp: TokenProgram) -> Pubkey {
     key
 }
 
+/// Fixture: give a Token-2022 fee mint a PENDING fee change — the older schedule `old` (from epoch 0) and the newer
+/// schedule `new` that takes effect at `epoch_new` (what `set_transfer_fee` leaves behind).  Returns false when the
+/// mint has no TransferFeeConfig extension.
+pub fn set_fee_schedule(world: &mut World, mint: &Pubkey, old: (u16, u64), new: (u16, u64), epoch_new: u64) -> bool {
+    use spl_token_2022::extension::{
+        transfer_fee::{TransferFee, TransferFeeConfig},
+        BaseStateWithExtensionsMut, StateWithExtensionsMut,
+    };
+    let Some(a) = world.accounts.get_mut(mint) else { return false };
+    if a.owner != spl_token_2022::ID {
+        return false;
+    }
+    let Ok(mut st) = StateWithExtensionsMut::<spl_token_2022::state::Mint>::unpack(&mut a.data) else { return false };
+    let Ok(ext) = st.get_extension_mut::<TransferFeeConfig>() else { return false };
+    ext.older_transfer_fee =
+        TransferFee { epoch: 0u64.into(), maximum_fee: old.1.into(), transfer_fee_basis_points: old.0.into() };
+    ext.newer_transfer_fee =
+        TransferFee { epoch: epoch_new.into(), maximum_fee: new.1.into(), transfer_fee_basis_points: new.0.into() };
+    true
+}
+
 /// (token program id, decimals, has transfer-fee extension) of a mint in the store.
 pub fn mint_info(world: &World, mint: &Pubkey) -> (Pubkey, u8, bool) {
     use spl_token_2022::extension::{
